@@ -46,8 +46,12 @@ def sender_session(cw, env_rnd, ids, mode, k, nmsgs, sid):
     kem, kdf, aead = ids
     g = gen.G(env_rnd)
     s = cw.session(kem, kdf, aead, sid=sid)
-    info = g.blob(gen.LEN_SMALL, maxrand=200)
-    m = gen.add_pair(s, g, kem, mode, info=info, rng=rng_pattern(g, env_rnd, kem, k))
+    info = g.blob(gen.LEN_SMALL + [300, 1000, 4097, 65537], maxrand=600)
+    psk = pskid = None
+    if mode in (1, 3):
+        psk = g.rbytes(env_rnd.choice([1, 16, 32, 33, 64, 65, 100, 300, 4096]))
+        pskid = g.rbytes(env_rnd.choice([1, 8, 32, 65, 300, 1000]))
+    m = gen.add_pair(s, g, kem, mode, info=info, psk=psk, pskid=pskid, rng=rng_pattern(g, env_rnd, kem, k))
     for i in range(nmsgs if aead != 0xFFFF else 0):
         pt = g.blob(gen.LEN_SMALL, maxrand=300)
         aad = g.blob(gen.LEN_SMALL, maxrand=100)
@@ -76,9 +80,9 @@ def ref_sender_session(cw, env_rnd, ids, mode, nmsgs, sid):
     if mode in (2, 3):
         skS, pkS = k.derive_key_pair(g.raw(k.nsk))
     if mode in (1, 3):
-        psk = g.raw(env_rnd.choice([1, 32, 33, 64]))
-        pskid = g.raw(env_rnd.choice([1, 8, 40]))
-    info = g.raw(env_rnd.choice([0, 1, 20, 64, 65, 200]))
+        psk = g.raw(env_rnd.choice([1, 32, 33, 64, 65, 300, 2000]))
+        pskid = g.raw(env_rnd.choice([1, 8, 40, 300, 1500]))
+    info = g.raw(env_rnd.choice([0, 1, 20, 64, 65, 200, 300, 1000, 5000]))
     enc, ctx, _ = su.setup_s(mode, pkR, info, g.raw(k.nsk), psk, pskid, skS)
     s = cw.session(kem, kdf, aead, sid=sid)
     margs = {}
